@@ -415,6 +415,36 @@ public:
       } else if (auto *LE = dyn_cast<LambdaExpr>(S)) {
         J.attribute("k", "Lambda");
         loc(LE->getBeginLoc());
+      } else if (auto *AE = dyn_cast<AtomicExpr>(S)) {
+        // C11 / GNU atomic builtins: modelled as a call of the generic operation on (pointer, value...)
+        J.attribute("k", "Call");
+        const char *nm = "atomic_op";
+        switch (AE->getOp()) {
+        case AtomicExpr::AO__c11_atomic_store: case AtomicExpr::AO__atomic_store: case AtomicExpr::AO__atomic_store_n: nm = "atomic_store"; break;
+        case AtomicExpr::AO__c11_atomic_load: case AtomicExpr::AO__atomic_load: case AtomicExpr::AO__atomic_load_n: nm = "atomic_load"; break;
+        case AtomicExpr::AO__c11_atomic_exchange: case AtomicExpr::AO__atomic_exchange: case AtomicExpr::AO__atomic_exchange_n: nm = "atomic_exchange"; break;
+        case AtomicExpr::AO__c11_atomic_fetch_add: case AtomicExpr::AO__atomic_fetch_add: nm = "atomic_fetch_add"; break;
+        case AtomicExpr::AO__c11_atomic_fetch_sub: case AtomicExpr::AO__atomic_fetch_sub: nm = "atomic_fetch_sub"; break;
+        case AtomicExpr::AO__c11_atomic_fetch_or: case AtomicExpr::AO__atomic_fetch_or: nm = "atomic_fetch_or"; break;
+        case AtomicExpr::AO__c11_atomic_fetch_and: case AtomicExpr::AO__atomic_fetch_and: nm = "atomic_fetch_and"; break;
+        case AtomicExpr::AO__c11_atomic_compare_exchange_strong: case AtomicExpr::AO__c11_atomic_compare_exchange_weak:
+        case AtomicExpr::AO__atomic_compare_exchange: case AtomicExpr::AO__atomic_compare_exchange_n: nm = "atomic_compare_exchange"; break;
+        default: break;
+        }
+        J.attribute("fn", nm);
+        J.attribute("atomic", 1);
+        J.attribute("t", typeStr(AE->getType()));
+        loc(AE->getBeginLoc());
+        J.attributeArray("args", [&] {
+          expr(AE->getPtr());
+          switch (AE->getOp()) {
+          case AtomicExpr::AO__c11_atomic_load: case AtomicExpr::AO__atomic_load_n:
+            break;
+          default:
+            if (AE->getNumSubExprs() >= 3) expr(AE->getVal1());
+            break;
+          }
+        });
       } else {
         J.attribute("k", S->getStmtClassName());
         if (E)
